@@ -25,7 +25,9 @@ META = dict(
 )
 
 FORMATS = ["pack-0.92", "1.9", "2a", "development-colo"]
-DAG = [("r1", []), ("r2", ["r1"]), ("r3", ["r1"]), ("r4", ["r2", "r3"])]
+# r1..r4: the shared mainline (r4 merges r3).  x1: off the mainline, only a TAG points to it.  p1: off the mainline, pending-
+# merged into a working tree that has pending changes.  m5 / l5: one more commit on the master / on the location.
+DAG = [("r1", []), ("r2", ["r1"]), ("r3", ["r1"]), ("r4", ["r2", "r3"]), ("x1", ["r2"]), ("p1", ["r3"]), ("m5", ["r4"]), ("l5", ["r4"])]
 TREES = {
     "r1": {"f": ("file", b"one\n", False), "d": ("directory", None, False), "d/g": ("file", b"g1\n", False)},
     "r2": {"f": ("file", b"two\n", False), "d": ("directory", None, False), "d/g": ("file", b"g1\n", False),
@@ -35,8 +37,10 @@ TREES = {
     "r4": {"f": ("file", b"two\n", False), "d": ("directory", None, False), "d/g": ("file", b"g3\n", False),
            "u-n.txt": ("file", b"unusual\n", False), "l": ("file", b"side\n", False)},
 }
-TAGS = {"v1": b"r1", "tég": b"r2"}
+TAGS = {"v1": b"r1", "t\u00e9g": b"r2"}
 LOCAL_TAG = ("local-only", b"r3")
+OFF_TAG = ("off-mainline", b"x1")
+REVNO = {b"r4": 3, b"m5": 4, b"l5": 4}
 
 
 def fmt_obj(name):
@@ -44,20 +48,38 @@ def fmt_obj(name):
     return controldir.format_registry.make_controldir(name)
 
 
+_SRC = {}
+
+
+def source_history(fmt):
+    """The revisions every fixture is cut from (built once per format and process; only ever read)."""
+    if fmt not in _SRC:
+        _SRC[fmt] = vworld.build_dag(DAG, fmt=fmt, trees=TREES)
+    return _SRC[fmt]
+
+
 class Site:
-    """D/master: the master / referenced branch; D/s: a plain directory or a shared repository; D/s/loc: the location."""
+    """D/master: the master / referenced branch; D/s: a plain directory or a shared repository; D/s/loc: the location.
+
+    lay["sync"] says how the master's tip relates to the location's: same | master-ahead | local-ahead | diverged.
+    The repository the location's branch uses always holds two revisions OUTSIDE the tip's ancestry: x1 (a tag points to
+    it) and p1 (pending-merged into the working tree when that has pending changes).  lay["pre"]: the enclosing shared
+    repository already holds the tip's ancestry (a sibling branch s/other was made from it earlier)."""
 
     def __init__(self, base, lay):
-        from breezy import controldir, transport as T
+        from breezy import controldir
         self.base = base
         self.lay = dict(lay)
         fmt = lay["fmt"]
-        src = vworld.build_dag(DAG, fmt=lay.get("mfmt", fmt), trees=TREES)
+        sync = lay.get("sync", "same")
+        src = source_history(lay.get("mfmt", fmt))
         self.M = os.path.join(base, "master")
         self.S = os.path.join(base, "s")
         self.L = os.path.join(self.S, "loc")
         os.mkdir(self.S)
-        mcd = src.controldir.sprout(self.M, revision_id=b"r4", create_tree_if_local=False)
+        mtip = b"m5" if sync in ("master-ahead", "diverged") else b"r4"
+        ltip = b"l5" if sync in ("local-ahead", "diverged") else b"r4"
+        mcd = src.controldir.sprout(self.M, revision_id=mtip, create_tree_if_local=False)
         mb = mcd.open_branch()
         for k, v in TAGS.items():
             mb.tags.set_tag(k, v)
@@ -65,26 +87,41 @@ class Site:
             scd = fmt_obj(lay["sfmt"]).initialize(self.S)
             srepo = scd.create_repository(shared=True)
             srepo.set_make_working_trees(True)
+            if lay.get("pre"):
+                other = os.path.join(self.S, "other")
+                os.mkdir(other)
+                ocd = fmt_obj(lay["sfmt"]).initialize(other)
+                ocd.find_repository().fetch(src.repository, revision_id=ltip)
+                ocd.create_branch().set_last_revision_info(REVNO[ltip], ltip)
         os.mkdir(self.L)
         cd = fmt_obj(fmt).initialize(self.L)
         if lay["br"] == "ref":
+            for extra in (b"x1", b"p1"):
+                mb.repository.fetch(src.repository, revision_id=extra)
             cd.set_branch_reference(mb)
             mb.tags.set_tag(*LOCAL_TAG)
+            mb.tags.set_tag(*OFF_TAG)
         else:
             repo = cd.create_repository() if lay["repo"] == "own" else cd.find_repository()
-            repo.fetch(mb.repository, revision_id=b"r4")
+            for r in (ltip, b"x1", b"p1"):
+                repo.fetch(src.repository, revision_id=r)
             b = cd.create_branch()
-            b.set_last_revision_info(3, b"r4")
+            b.set_last_revision_info(REVNO[ltip], ltip)
             for k, v in TAGS.items():
                 b.tags.set_tag(k, v)
             b.tags.set_tag(*LOCAL_TAG)
+            b.tags.set_tag(*OFF_TAG)
             b.set_parent(mb.base)
             if lay["br"] == "bound":
-                b.bind(mb)
+                if sync == "same":
+                    b.bind(mb)
+                else:
+                    b.set_bound_location(mb.base)   # (bind() itself refuses a master that is not in step)
         if lay["tree"]:
             wt = cd.create_workingtree()
             if lay["dirty"]:
                 self.make_dirty(wt)
+                wt.add_parent_tree_id(b"p1")
 
     def make_dirty(self, wt):
         with open(os.path.join(self.L, "f"), "wb") as f:
@@ -154,6 +191,7 @@ class Site:
             out["testaments"] = [[r.decode(), StrictTestament3.from_revision(b.repository, r).as_sha1().decode()] for r in revs]
             out["parents"] = [[r.decode(), [p.decode() for p in b.repository.get_parent_map([r])[r]]] for r in revs]
             out["tags"] = sorted([k, v.decode()] for k, v in b.tags.get_tag_dict().items())
+            referenced = set(b.tags.get_tag_dict().values())
         try:
             wt = cd.open_workingtree()
         except errors.NoWorkingTree:
@@ -170,6 +208,16 @@ class Site:
                 out["changes"] = sorted(ch, key=repr)
             out["disk"] = sorted([p] + v for p, v in vworld.disk_proj(self.L, skip=(".bzr", "backup.bzr")).items()
                                  if not p.startswith("backup.bzr"))
+            referenced |= {p.encode() for p in out["wt_parents"][1:]}          # pending merges (the basis is `history`)
+        # every revision a tag or a tree parent names: still there, with the same testament?
+        refs = []
+        with b.lock_read():
+            for r in sorted(referenced):
+                if b.repository.has_revision(r):
+                    refs.append([r.decode(), StrictTestament3.from_revision(b.repository, r).as_sha1().decode()])
+                else:
+                    refs.append([r.decode(), "ABSENT"])
+        out["refs"] = refs
         return out
 
 
@@ -196,7 +244,7 @@ def canon(c):
     s = lambda v: json.dumps(v, sort_keys=True, ensure_ascii=True)
     return {"tip": c["tip"], "revno": c["revno"], "testaments": s(c["testaments"]), "parents": s(c["parents"]),
             "tags": s(c["tags"]), "hasTree": c["wt"] != "none", "wt": s(c["wt"]), "wtparents": s(c.get("wt_parents", [])),
-            "changes": s(c["changes"]), "disk": s(c["disk"]), "tipTree": s(c["tipTree"])}
+            "changes": s(c["changes"]), "disk": s(c["disk"]), "tipTree": s(c["tipTree"]), "refs": c["refs"]}
 
 
 def replay_paths(sub, chunk):
@@ -266,9 +314,10 @@ def replay_one(sub, base, path, states):
             sub.count(1)
             return
         rows.append({"l0": l0, "l1": st1["lay"], "out": st1["last"], "act": name, "arg": arg, "r1": r1, "rout": rout, "c0": canon(c0), "c1": canon(c1),
+                     "model_drops": states[path[i - 1][1]]["content"]["refs"] != st1["content"]["refs"],
                      "meta": {"initial_layout": lay0, "log": [list(x) for x in log], "exc": exc,
-                              "before": {k: c0[k] for k in ("tip", "revno", "tags", "changes", "wt")},
-                              "after": {k: c1[k] for k in ("tip", "revno", "tags", "changes", "wt")}}})
+                              "before": {k: c0[k] for k in ("tip", "revno", "tags", "refs", "wt_parents", "changes", "wt") if k in c0},
+                              "after": {k: c1[k] for k in ("tip", "revno", "tags", "refs", "wt_parents", "changes", "wt") if k in c1}}})
         sub.count(1)
         if rout == "ok" and st1["lay"] != l0:
             sub.nontrivial(repr((sorted(lay0.items()), [tuple(x[:2]) for x in log])))
@@ -284,18 +333,26 @@ def cfg(maxsteps, formats, extra=""):
             % (maxsteps, ", ".join('"%s"' % f for f in formats))) + extra
 
 
-PROVED = "PROPERTY PendingKept\nPROPERTY CreatedClean\nPROPERTY RefusalIsNoop\nPROPERTY NeverDropsPending\n"
+PROVED = ("PROPERTY PendingKept\nPROPERTY CreatedClean\nPROPERTY RefusalIsNoop\nPROPERTY NeverDropsPending\n"
+          "PROPERTY DropsOnlyWhereNamed\nPROPERTY TipNeverJumps\n")
 
 
 def run(ctx):
     env.init()
     steps = 2 if ctx.tier != "thorough" else 3
     tlc.check(ctx, "Layouts", cfg_text=cfg(steps, FORMATS, PROVED), label="layout algebra, all sequences <= %d" % steps, workers=8)
-    for wit, fm in (("WitnessRoundTrip", FORMATS), ("WitnessUnused", FORMATS), ("WitnessUpgradedShared", ["pack-0.92"])):
+    # ReferencedKept: the implementation-shaped model does lose off-mainline revisions where DropsOffMainline says
+    wits = [("WitnessRoundTrip", FORMATS), ("ReferencedKept", ["2a"])]
+    if ctx.tier == "thorough":
+        wits += [("WitnessUnused", FORMATS), ("WitnessUpgradedShared", ["pack-0.92"])]
+    for wit, fm in wits:
         tlc.check(ctx, "Layouts", cfg_text=cfg(2, fm, "INVARIANT %s\n" % wit), expect_violation=wit, label="witness " + wit, workers=4)
     nodes, edges, inits, res = tlc.graph(ctx, "Layouts", cfg_text=cfg(steps, FORMATS), label="state graph", workers=8)
-    # TLC's workers dump the graph in a run-dependent order: fix it, so that the seed alone decides what is replayed
-    edges, inits = sorted(edges), sorted(inits)
+    # TLC names the nodes by fingerprints that differ from run to run, and its workers dump them in any order: rename the
+    # nodes by the rank of their state text, so that the seed alone decides what is replayed
+    ren = {old: "n%06d" % i for i, old in enumerate(sorted(nodes, key=lambda n: nodes[n]))}
+    nodes = {ren[k]: v for k, v in nodes.items()}
+    edges, inits = sorted((ren[a], act, ren[b]) for a, act, b in edges), sorted(ren[i] for i in inits)
     paths = [p for p in tlc.transition_cover(nodes, edges, inits, rng=ctx.rng) if len(p) > 1]
     ctx.cov["graph"] = {"nodes": len(nodes), "edges": len(edges), "initial_layouts": len(inits), "cover_paths": len(paths)}
     parsed = {}
@@ -309,7 +366,7 @@ def run(ctx):
         return -sum(1 for _, nid in p[1:] if st(nid)["last"] == "ok")
     ctx.rng.shuffle(paths)
     paths.sort(key=weight)
-    want = (160 if ctx.quick else 2000) if ctx.tier != "tiny" else 10
+    want = (210 if ctx.quick else 2500) if ctx.tier != "tiny" else 10
     # round-robin over the kinds of first step so that every transition kind is replayed: reconfigurations by source
     # layout (with / without pending changes), upgrades by (from, to) format and which components sit at the location
     def own(l):
@@ -321,6 +378,10 @@ def run(ctx):
         name, arg = m.group(1), (m.group(2) or "").strip('"')
         if name == "Reconfigure":
             key = ("R", l0["tree"], l0["br"], l0["repo"], l0["dirty"], arg)
+            if arg in ("lightweight-checkout", "checkout") and l0["sync"] != "same":
+                key = ("R", l0["tree"], l0["br"], l0["repo"], l0["sync"], arg)      # master ahead / behind / diverged
+            elif arg == "use-shared":
+                key += (l0["pre"],)                                                  # shared repository empty / has the tip
         elif name == "Upgrade":
             key = ("U", l0["fmt"], arg, own(l0), l0["tree"])
         else:
@@ -334,12 +395,12 @@ def run(ctx):
             if groups[k] and len(picked) < want:
                 picked.append(groups[k].pop(0))
     jobs = [(p, {nid: st(nid) for _, nid in p}) for p in picked]
-    ctx.rule("sequences = paths of a transition cover of TLC's state graph of Layouts.tla (88 initial layouts: tree yes/no x branch "
-             "local / bound / reference x repository own / shared / none x inside a shared repository or not x 4 formats x "
-             "clean / pending changes; <= %d actions of Reconfigure(6 targets), Upgrade(4 formats), UpgradeShared(4 formats)); "
+    ctx.rule("sequences = paths of a transition cover of TLC's state graph of Layouts.tla (%d initial layouts: tree yes/no x branch "
+             "local / bound / reference x repository own / shared / none x inside a shared repository (empty / holding the tip) or "
+             "not x 4 formats x clean / pending changes + pending merge x master same / ahead / behind / diverged; <= %d actions of Reconfigure(6 targets), Upgrade(4 formats), UpgradeShared(4 formats)); "
              "%d cover paths, replayed: %d (round-robin over the kinds of first step: reconfigurations by source layout and "
-             "pending changes, upgrades by formats and components; sequences with more effective steps first); non-trivial = sequence whose steps change the layout; distinct = (initial layout, actions)"
-             % (steps, len(paths), len(picked)))
+             "pending changes, master relation for (lightweight-)checkout, upgrades by formats and components; sequences with more effective steps first); non-trivial = sequence whose steps change the layout; distinct = (initial layout, actions)"
+             % (len(inits), steps, len(paths), len(picked)))
     core.fork_map(ctx, replay_paths, jobs)
     rows = ctx.collected
     if not rows:
@@ -354,6 +415,18 @@ def run(ctx):
         src = "%s,%s,%s" % ("tree" if l0["tree"] else "no-tree", l0["br"], l0["repo"])
         for law in failed:
             what = "%s(%s)" % (name, arg) if name == "Reconfigure" else "%s(%s>%s)" % (name, l0["fmt"], arg)
+            if law == "referenced":
+                # which kind of named revision went missing, and between which repositories the branch moved
+                b, a = dict(map(tuple, meta["before"]["refs"])), dict(map(tuple, meta["after"]["refs"]))
+                pend = set(meta["before"].get("wt_parents", [])[1:])
+                kinds = sorted({("pending-merge" if rv in pend else "tag-target") for rv in b if b[rv] != "ABSENT" and a.get(rv) != b[rv]})
+                norm = lambda x: "none" if x == "unused" else x          # (a left-over own repository plays no part)
+                move = "%s>%s" % (norm(l0["repo"]), norm(r["l1"]["repo"]))
+                for kd in kinds:
+                    ctx.violation("referenced:%s:%s:%s%s" % (name, move, kd, "" if r["model_drops"] else ":unpredicted"),
+                                  "%s on a [%s] location: %s revisions named by the location are no longer in its repository "
+                                  "(before %s, after %s)" % (what, src, kd, meta["before"]["refs"], meta["after"]["refs"]), meta)
+                continue
             ctx.violation("%s:%s:%s%s" % (law, what, src, ",pending" if l0["dirty"] else ""),
                           "%s on a [%s] location (%s): law %s fails; before %s after %s" % (
                               what, src, meta["exc"] or "no exception", law, meta["before"], meta["after"]), meta)
